@@ -1,6 +1,790 @@
-//! Property C02: correspondence and oracle (stub: nothing built yet).
-use crate::report::Report;
+//! Property C02: dense and readable generators emit code that means the same tree.
+//!
+//! (1) exhaustive correspondence of the real parenthesis decisions
+//!     (`BinaryOperator::{left,right}_needs_parentheses`, `TypeCastExpression::needs_parentheses`,
+//!     the unary-operand rule observed on the real generator) and of
+//!     `should_break_with_space` / `break_*` against the Lean model;
+//! (2) trace correspondence: every real generator run yields its primitive write operations
+//!     (hook in dense.rs / readable.rs); the Lean writer model replays them and must reproduce
+//!     the output byte for byte;
+//! (3) oracle, independent of the model: the generated text is re-read by the Lean parser
+//!     (`C02/Parse.lean`) and by darklua's own parser and compared with the source tree modulo
+//!     operand-position parentheses.
+mod gen;
+mod sexp;
+mod tree;
 
-pub fn run(report: &mut Report, _replay: Option<&str>) {
-    report.notes.push("C02: no harness yet".to_owned());
+use crate::model::{hex, Model};
+use crate::report::{known_findings, Report, Violation};
+use crate::rng::Rng;
+use darklua_core::generator::{DenseLuaGenerator, LuaGenerator, ReadableLuaGenerator};
+use darklua_core::nodes as n;
+use darklua_core::verif_hooks as hooks;
+use gen::*;
+use serde_json::{json, Value};
+use std::collections::{BTreeMap, HashMap};
+use std::panic::{catch_unwind, AssertUnwindSafe};
+use tree::*;
+
+const KINDS: [&str; 2] = ["dense", "readable"];
+
+// ------------------------------------------------------------------ real generator runs
+
+#[derive(Clone, Debug)]
+pub struct Run {
+    pub text: String,
+    pub ops: Vec<hooks::TraceOp>,
+}
+
+fn generate(kind: &str, span: usize, block: &n::Block) -> Result<Run, String> {
+    let result = catch_unwind(AssertUnwindSafe(|| {
+        hooks::trace_start();
+        let text = if kind == "dense" {
+            let mut g = DenseLuaGenerator::new(span);
+            g.write_block(block);
+            g.into_string()
+        } else {
+            let mut g = ReadableLuaGenerator::new(span);
+            g.write_block(block);
+            g.into_string()
+        };
+        let ops = hooks::trace_take();
+        Run { text, ops }
+    }));
+    result.map_err(|p| {
+        let _ = hooks::trace_take();
+        p.downcast_ref::<String>().cloned().or_else(|| p.downcast_ref::<&str>().map(|s| s.to_string())).unwrap_or_else(|| "panic".into())
+    })
+}
+
+fn darklua_parse(text: &str) -> Result<Blk, String> {
+    let parsed = catch_unwind(AssertUnwindSafe(|| darklua_core::Parser::default().parse(text)));
+    match parsed {
+        Err(_) => Err("darklua parser panicked".into()),
+        Ok(Err(err)) => Err(format!("darklua parser rejects: {:?}", err).chars().take(300).collect()),
+        Ok(Ok(block)) => from_block(&block),
+    }
+}
+
+fn lean_parse(model: &mut Model, text: &str) -> Result<Blk, String> {
+    let answer = model.ask(&format!("c02.parse {}", hex(text.as_bytes())));
+    if answer.starts_with("err") || answer == "error" {
+        return Err(format!("Lean parser rejects: {}", answer));
+    }
+    let sx = sexp::parse(&answer).ok_or_else(|| format!("unreadable parser answer: {}", answer))?;
+    sexp::to_blk(&sx).ok_or_else(|| format!("parser answer is not a block: {}", answer))
+}
+
+// ------------------------------------------------------------------ trace on the wire
+
+/// The trace records every primitive call, nested calls included, in call order. The Lean
+/// replay (`Driver.replay`) predicts the nested calls of each top-level call from the model
+/// state, checks them against the trace and steps the model on the top-level calls.
+fn ops_wire(ops: &[hooks::TraceOp]) -> String {
+    ops.iter()
+        .map(|t| format!("{}:{}:{}", t.op, hex(t.text.as_bytes()), t.detail))
+        .collect::<Vec<_>>()
+        .join(" ")
+}
+
+// ------------------------------------------------------------------ per-thread results
+
+#[derive(Default)]
+struct Local {
+    evaluations: u64,
+    keys: Vec<u64>,
+    hist: BTreeMap<(String, String), u64>,
+    counters: BTreeMap<String, u64>,
+    violations: Vec<Violation>,
+    samples: Vec<Value>,
+    f23_seen: Vec<String>,
+    f26_seen: Vec<String>,
+}
+
+impl Local {
+    fn hist(&mut self, name: &str, bucket: &str) {
+        *self.hist.entry((name.to_owned(), bucket.to_owned())).or_default() += 1;
+    }
+    fn count(&mut self, name: &str, k: u64) {
+        *self.counters.entry(name.to_owned()).or_default() += k;
+    }
+    fn merge_into(self, report: &mut Report) {
+        report.evaluations += self.evaluations;
+        for k in self.keys {
+            report.case(Some(k));
+            report.evaluations -= 1;
+        }
+        for ((name, bucket), v) in self.hist {
+            *report.histograms.entry(name).or_default().entry(bucket).or_default() += v;
+        }
+        for (name, v) in self.counters {
+            report.count(&name, v);
+        }
+        for v in self.violations {
+            report.violation(v);
+        }
+        for s in self.samples {
+            report.sample(s);
+        }
+    }
+}
+
+fn tree_input(family: &str, blk: &Blk, kind: &str, span: usize, text: &str) -> Value {
+    json!({"family": family, "tree": sexp::blk_str(blk), "generator": kind, "column_span": span, "output": text})
+}
+
+/// The three checks on one tree. `spans` are the column spans to run.
+fn check_tree(model: &mut Model, family: &str, blk: &Blk, spans: &[usize], local: &mut Local) {
+    let node = match catch_unwind(AssertUnwindSafe(|| to_block(blk))) {
+        Ok(b) => b,
+        Err(_) => {
+            local.count("tree_construction_panicked", 1);
+            return;
+        }
+    };
+    let expected = norm_block(blk);
+    let f23 = outside_h2(blk, false);
+    let f23b = outside_h2(blk, true);
+    let f26 = in_f26_region(blk);
+    if f26 {
+        local.hist("family", "outside-H3 (printer-added `)` before a `(`-statement without `;`)");
+    }
+    local.hist("family", family);
+    if f23 {
+        local.hist("family", "outside-H2 (negative literal left of ^ or under ::)");
+    }
+    if f23b {
+        local.hist("family", "outside-H2 for dense (negative literal left of ..)");
+    }
+    let mut seen_text: HashMap<String, ()> = HashMap::new();
+    let mut nontrivial = false;
+    for kind in KINDS {
+        for &span in spans {
+            local.evaluations += 1;
+            let run = match generate(kind, span, &node) {
+                Ok(r) => r,
+                Err(msg) => {
+                    local.violations.push(Violation {
+                        kind: "oracle".into(),
+                        check: "generator-panic".into(),
+                        what: format!("{} generator panicked: {}", kind, msg),
+                        input: tree_input(family, blk, kind, span, ""),
+                        failing_input_found: true,
+                    });
+                    continue;
+                }
+            };
+            // (2) trace replay by the Lean writer model
+            {
+                let ops = &run.ops;
+                local.count("trace_ops_replayed", ops.len() as u64);
+                let answer = model.ask(&format!("c02.writer {} {} {}", kind, span, ops_wire(ops)));
+                let expected_hex = hex(run.text.as_bytes());
+                if answer != expected_hex {
+                    local.violations.push(Violation {
+                        kind: "correspondence".into(),
+                        check: "writer-replay".into(),
+                        what: format!(
+                            "the Lean {} writer replaying the traced operations gives {} but the real output is {:?}",
+                            kind,
+                            crate::model::unhex(&answer).map(|b| format!("{:?}", String::from_utf8_lossy(&b))).unwrap_or(answer.clone()),
+                            run.text
+                        ),
+                        input: {
+                            let mut v = tree_input(family, blk, kind, span, &run.text);
+                            v["trace"] = json!(ops_wire(ops).chars().take(6000).collect::<String>());
+                            v
+                        },
+                        failing_input_found: false,
+                    });
+                }
+                if ops.len() > 6 {
+                    nontrivial = true;
+                }
+            }
+            if run.text.contains(' ') || run.text.contains('\n') {
+                local.hist("output", "has-separator");
+            } else {
+                local.hist("output", "no-separator");
+            }
+            if span < 20 {
+                local.hist("span", "0-19");
+            } else if span < 80 {
+                local.hist("span", "20-79");
+            } else {
+                local.hist("span", "80-120");
+            }
+            // (3) oracle: re-read the text (once per distinct text)
+            if seen_text.insert(format!("{}\u{0}{}", kind, run.text), ()).is_some() {
+                continue;
+            }
+            local.count("distinct_texts_reparsed", 1);
+            let mut verdicts: Vec<(&str, Result<Blk, String>)> = Vec::new();
+            verdicts.push(("lean-parser", lean_parse(model, &run.text)));
+            verdicts.push(("darklua-parser", darklua_parse(&run.text)));
+            for (who, verdict) in verdicts {
+                let failure = match verdict {
+                    Err(msg) => Some(msg),
+                    Ok(parsed) => {
+                        let got = norm_block(&parsed);
+                        if got == expected {
+                            None
+                        } else {
+                            Some(format!("re-read tree differs: {}", sexp::blk_str(&got)))
+                        }
+                    }
+                };
+                if let Some(msg) = failure {
+                    if f26 {
+                        if !local.f26_seen.iter().any(|t| t == &run.text) && local.f26_seen.len() < 4 {
+                            local.f26_seen.push(run.text.clone());
+                        }
+                        continue;
+                    }
+                    if f23 || (f23b && kind == "dense") {
+                        if !local.f23_seen.iter().any(|t| t == &run.text) && local.f23_seen.len() < 4 {
+                            local.f23_seen.push(run.text.clone());
+                        }
+                        continue;
+                    }
+                    local.violations.push(Violation {
+                        kind: "oracle".into(),
+                        check: format!("reparse-{}", who),
+                        what: format!(
+                            "{} generator (column_span {}) wrote {:?} which does not mean the source tree ({}): {}",
+                            kind,
+                            span,
+                            run.text.chars().take(200).collect::<String>(),
+                            who,
+                            msg.chars().take(400).collect::<String>()
+                        ),
+                        input: tree_input(family, blk, kind, span, &run.text),
+                        failing_input_found: true,
+                    });
+                }
+            }
+        }
+    }
+    if nontrivial {
+        local.keys.push(crate::report::hash_of(&sexp::blk_str(blk)));
+    }
+    if local.samples.len() < 3 && family != "op-pair" {
+        if let Ok(r) = generate("dense", 80, &node) {
+            local.samples.push(json!({"family": family, "tree": sexp::blk_str(blk), "dense80": r.text}));
+        }
+    }
+}
+
+// ------------------------------------------------------------------ (1) exhaustive tables
+
+/// Model expression (mirror of Lean `E`).
+#[derive(Clone, Debug)]
+enum ME {
+    Atom(usize),
+    NegNum(usize),
+    Paren(Box<ME>),
+    IfExp(Box<ME>, Box<ME>, Box<ME>),
+    Cast(Box<ME>, usize),
+    Un(usize, Box<ME>),
+    Bin(usize, Box<ME>, Box<ME>),
+}
+
+const TYPE_NAMES: [&str; 3] = ["T", "number", "Foo"];
+
+fn atom_ex(k: usize) -> Ex {
+    match k % 13 {
+        0 => id("a"),
+        1 => id("b"),
+        2 => id("c"),
+        3 => num(1.0),
+        4 => Ex::Str(b"s".to_vec()),
+        5 => Ex::Table(vec![]),
+        6 => call(id("f"), vec![]),
+        7 => Ex::Field(bx(id("t")), "x".into()),
+        8 => Ex::Index(bx(id("t")), bx(num(1.0))),
+        9 => Ex::Func(Box::new(Func { params: vec![], variadic: false, body: Blk::default() })),
+        10 => Ex::True,
+        11 => Ex::Nil,
+        _ => Ex::Varargs,
+    }
+}
+
+impl ME {
+    fn sexp(&self) -> String {
+        match self {
+            ME::Atom(k) => format!("(atom {})", k),
+            ME::NegNum(k) => format!("(negnum {})", k),
+            ME::Paren(e) => format!("(paren {})", e.sexp()),
+            ME::IfExp(c, a, b) => format!("(ifexp {} {} {})", c.sexp(), a.sexp(), b.sexp()),
+            ME::Cast(e, t) => format!("(cast {} {})", e.sexp(), t),
+            ME::Un(op, e) => format!("(un {} {})", UNOPS[*op], e.sexp()),
+            ME::Bin(op, l, r) => format!("(bin {} {} {})", BINOPS[*op], l.sexp(), r.sexp()),
+        }
+    }
+    fn ex(&self) -> Ex {
+        match self {
+            ME::Atom(k) => atom_ex(*k),
+            ME::NegNum(_) => num(-1.0),
+            ME::Paren(e) => paren(e.ex()),
+            ME::IfExp(c, a, b) => Ex::IfExp(bx(c.ex()), bx(a.ex()), vec![], bx(b.ex())),
+            ME::Cast(e, t) => Ex::Cast(bx(e.ex()), TYPE_NAMES[*t % 3].to_owned()),
+            ME::Un(op, e) => un(*op, e.ex()),
+            ME::Bin(op, l, r) => bin(*op, l.ex(), r.ex()),
+        }
+    }
+    /// the model's token rendering of this atom in the real output
+    fn atom_text(k: usize) -> String {
+        let node = to_expr(&atom_ex(k));
+        let mut g = DenseLuaGenerator::new(10_000);
+        g.write_expression(&node);
+        g.into_string()
+    }
+}
+
+fn operand_shapes() -> Vec<ME> {
+    use ME::*;
+    let b = |e: ME| Box::new(e);
+    let mut v: Vec<ME> = Vec::new();
+    for k in 0..13 {
+        v.push(Atom(k));
+    }
+    v.push(NegNum(3));
+    v.push(Paren(b(Atom(0))));
+    v.push(Paren(b(Bin(8, b(Atom(0)), b(Atom(1))))));
+    let ife = IfExp(b(Atom(0)), b(Atom(1)), b(Atom(2)));
+    let cast = Cast(b(Atom(0)), 0);
+    v.push(ife.clone());
+    v.push(cast.clone());
+    v.push(IfExp(b(Atom(0)), b(Atom(1)), b(cast.clone())));
+    v.push(Cast(b(ife.clone()), 1));
+    v.push(Paren(b(ife.clone())));
+    for u in 0..3 {
+        for inner in [Atom(0), NegNum(3), ife.clone(), cast.clone(), Paren(b(ife.clone())), Un(1, b(Atom(0))), Un(u, b(ife.clone())), Bin(14, b(Atom(0)), b(Atom(1))), Bin(8, b(Atom(0)), b(Atom(1)))] {
+            v.push(Un(u, b(inner)));
+        }
+    }
+    for q in 0..16 {
+        v.push(Bin(q, b(Atom(0)), b(Atom(1))));
+        for right in [ife.clone(), cast.clone(), Un(1, b(ife.clone())), Un(2, b(cast.clone())), Bin(q, b(Atom(1)), b(ife.clone())), Bin(14, b(Atom(1)), b(cast.clone())), Paren(b(ife.clone())), NegNum(3)] {
+            v.push(Bin(q, b(Atom(0)), b(right)));
+        }
+        v.push(Bin(q, b(ife.clone()), b(Atom(1))));
+        v.push(Bin(q, b(cast.clone()), b(Atom(1))));
+        v.push(Bin(q, b(NegNum(3)), b(Atom(1))));
+    }
+    v
+}
+
+fn table_correspondence(report: &mut Report, model: &mut Model) {
+    // ---- parenthesis decisions
+    let shapes = operand_shapes();
+    let mut lines = Vec::new();
+    let mut reals = Vec::new();
+    let mut inputs = Vec::new();
+    for shape in &shapes {
+        let node = to_expr(&shape.ex());
+        for o in 0..16 {
+            let op = n::BinaryExpression::new(binop_of(o), n::Expression::nil(), n::Expression::nil()).operator();
+            for side in ["left", "right"] {
+                let real = if side == "left" { op.left_needs_parentheses(&node) } else { op.right_needs_parentheses(&node) };
+                lines.push(format!("c02.paren {} {} {}", side, BINOPS[o], shape.sexp()));
+                reals.push(real);
+                inputs.push(json!({"side": side, "operator": BINOPS[o], "operand": shape.sexp()}));
+            }
+        }
+        // TypeCastExpression::needs_parentheses (public)
+        lines.push(format!("c02.paren cast - {}", shape.sexp()));
+        reals.push(n::TypeCastExpression::needs_parentheses(&node));
+        inputs.push(json!({"side": "cast", "operand": shape.sexp()}));
+        // unary-operand rule, observed on the real generator: `-X` starts with `-(` iff parenthesised
+        let unary = to_expr(&un(1, shape.ex()));
+        let mut g = DenseLuaGenerator::new(10_000);
+        g.write_expression(&unary);
+        let text = g.into_string();
+        let mut g = DenseLuaGenerator::new(10_000);
+        g.write_expression(&node);
+        let alone = g.into_string();
+        let with_parens = text == format!("-({})", alone);
+        let without = text == format!("-{}", alone) || text == format!("- {}", alone);
+        if with_parens || without {
+            lines.push(format!("c02.paren unary - {}", shape.sexp()));
+            reals.push(with_parens);
+            inputs.push(json!({"side": "unary", "operand": shape.sexp(), "dense": text}));
+        }
+    }
+    let answers = model.ask_batch(&lines);
+    let mut mismatches = Vec::new();
+    for ((answer, real), input) in answers.iter().zip(&reals).zip(&inputs) {
+        report.case(Some(input.to_string()));
+        report.hist("table", "paren-decision");
+        if answer != if *real { "true" } else { "false" } {
+            mismatches.push((input.clone(), answer.clone(), *real));
+        }
+    }
+    report.exhaustive.insert("left/right_needs_parentheses: 16 operators x operand shapes (all operand operators, unary, if, cast, negative literal, nested endings)".into(), true);
+    for (input, answer, real) in mismatches.into_iter().take(6) {
+        report.violation(Violation {
+            kind: "correspondence".into(),
+            check: "paren-table".into(),
+            what: format!("model says {} but the real function says {}", answer, real),
+            input,
+            failing_input_found: false,
+        });
+    }
+    // ---- printed token skeleton of whole expressions: model printE vs real dense output
+    let mut lines = Vec::new();
+    let mut reals = Vec::new();
+    let mut inputs = Vec::new();
+    for shape in &shapes {
+        for o in [0usize, 4, 8, 9, 10, 14, 15] {
+            for (l, r) in [(shape.clone(), ME::Atom(1)), (ME::Atom(0), shape.clone())] {
+                let e = ME::Bin(o, Box::new(l), Box::new(r));
+                let mut g = DenseLuaGenerator::new(10_000);
+                g.write_expression(&to_expr(&e.ex()));
+                reals.push(g.into_string().replace(' ', ""));
+                lines.push(format!("c02.print {}", e.sexp()));
+                inputs.push(e.sexp());
+            }
+        }
+    }
+    let answers = model.ask_batch(&lines);
+    let atom_texts: Vec<String> = (0..13).map(ME::atom_text).collect();
+    for ((answer, real), input) in answers.iter().zip(&reals).zip(&inputs) {
+        report.case(Some(input.clone()));
+        report.hist("table", "printE-skeleton");
+        let rendered: String = answer
+            .split(' ')
+            .map(|tok| render_token(tok, &atom_texts))
+            .collect::<Vec<_>>()
+            .join("");
+        if &rendered.replace(' ', "") != real {
+            report.violation(Violation {
+                kind: "correspondence".into(),
+                check: "printE-skeleton".into(),
+                what: format!("model prints {:?} but the dense generator writes {:?}", rendered, real),
+                input: json!({"expression": input}),
+                failing_input_found: false,
+            });
+        }
+    }
+    // ---- ends_with_prefix (crate-private, through the hook) on `x = <expression>`
+    let mut lines = Vec::new();
+    let mut reals = Vec::new();
+    let mut inputs = Vec::new();
+    for shape in &shapes {
+        for e in [shape.clone(), ME::Bin(9, Box::new(ME::Atom(0)), Box::new(shape.clone())), ME::Un(1, Box::new(shape.clone()))] {
+            // a negative literal is a number whatever the model's atom index says
+            if e.sexp().contains("negnum") {
+                continue;
+            }
+            let statement = to_statement(&St::Assign(vec![id("x")], vec![e.ex()]));
+            reals.push(hooks::ends_with_prefix(&statement));
+            lines.push(format!("c02.endsprefix {}", e.sexp()));
+            inputs.push(e.sexp());
+        }
+    }
+    let answers = model.ask_batch(&lines);
+    for ((answer, real), input) in answers.iter().zip(&reals).zip(&inputs) {
+        report.case(Some(("endsprefix", input.clone())));
+        report.hist("table", "ends_with_prefix");
+        if answer != if *real { "true" } else { "false" } {
+            report.violation(Violation {
+                kind: "correspondence".into(),
+                check: "ends-with-prefix".into(),
+                what: format!("ends_with_prefix(x = e) is {} but the model says {}", real, answer),
+                input: json!({"expression": input}),
+                failing_input_found: false,
+            });
+        }
+    }
+    // ---- should_break_with_space: all 128 x 128 pairs
+    let mut lines = Vec::with_capacity(128 * 128);
+    for a in 0..128u32 {
+        for b in 0..128u32 {
+            lines.push(format!("c02.brk {} {}", a, b));
+        }
+    }
+    let answers = model.ask_batch(&lines);
+    let mut k = 0;
+    for a in 0..128u32 {
+        for b in 0..128u32 {
+            let real = hooks::should_break_with_space(char::from_u32(a).unwrap(), char::from_u32(b).unwrap());
+            if real {
+                report.case(Some(("brk", a, b)));
+            } else {
+                report.case(None::<u64>);
+            }
+            if answers[k] != if real { "true" } else { "false" } {
+                report.violation(Violation {
+                    kind: "correspondence".into(),
+                    check: "break-table".into(),
+                    what: format!("should_break_with_space({:?}, {:?}) is {} but the model says {}", char::from_u32(a).unwrap(), char::from_u32(b).unwrap(), real, answers[k]),
+                    input: json!({"ending": a, "next": b}),
+                    failing_input_found: false,
+                });
+            }
+            k += 1;
+        }
+    }
+    report.hist("table", "should_break_with_space 128x128");
+    report.exhaustive.insert("should_break_with_space: all 128 x 128 ASCII pairs".into(), true);
+    // ---- break_* predicates: all strings of length <= 2 over a relevant alphabet
+    let alphabet = b".-[>=09a_ x]";
+    let mut samples: Vec<Vec<u8>> = vec![vec![]];
+    for a in alphabet {
+        samples.push(vec![*a]);
+        for b in alphabet {
+            samples.push(vec![*a, *b]);
+            samples.push(vec![*a, b'q', *b]);
+        }
+    }
+    let preds: [(&str, fn(&str) -> bool); 5] = [
+        ("concat", hooks::break_concat),
+        ("varargs", hooks::break_variable_arguments),
+        ("minus", hooks::break_minus),
+        ("equal", hooks::break_equal),
+        ("longstring", hooks::break_long_string),
+    ];
+    let mut lines = Vec::new();
+    let mut reals = Vec::new();
+    for (name, f) in preds {
+        for s in &samples {
+            lines.push(format!("c02.brkpred {} {}", name, hex(s)));
+            reals.push((name, s.clone(), f(std::str::from_utf8(s).unwrap())));
+        }
+    }
+    let answers = model.ask_batch(&lines);
+    for (answer, (name, s, real)) in answers.iter().zip(&reals) {
+        report.case(Some((name, s)));
+        if answer != if *real { "true" } else { "false" } {
+            report.violation(Violation {
+                kind: "correspondence".into(),
+                check: "break-predicate".into(),
+                what: format!("break_{}({:?}) is {} but the model says {}", name, String::from_utf8_lossy(s), real, answer),
+                input: json!({"predicate": name, "last_push": hex(s)}),
+                failing_input_found: false,
+            });
+        }
+    }
+    report.hist("table", "break_* predicates");
+}
+
+fn binop_of(i: usize) -> n::BinaryOperator {
+    match to_expr(&bin(i, Ex::Nil, Ex::Nil)) {
+        n::Expression::Binary(b) => b.operator(),
+        _ => unreachable!(),
+    }
+}
+
+fn render_token(tok: &str, atoms: &[String]) -> String {
+    let symbols = [
+        ("and", "and"), ("or", "or"), ("eq", "=="), ("ne", "~="), ("lt", "<"), ("le", "<="), ("gt", ">"),
+        ("ge", ">="), ("add", "+"), ("sub", "-"), ("mul", "*"), ("div", "/"), ("idiv", "//"), ("mod", "%"),
+        ("pow", "^"), ("concat", ".."),
+    ];
+    if let Some((_, s)) = symbols.iter().find(|(n, _)| *n == tok) {
+        return (*s).to_owned();
+    }
+    if let Some(k) = tok.strip_prefix('a').and_then(|d| d.parse::<usize>().ok()) {
+        // a negative literal prints as `-` followed by the atom of its absolute value
+        return atoms.get(k % 13).cloned().unwrap_or_default();
+    }
+    if let Some(t) = tok.strip_prefix('t').and_then(|d| d.parse::<usize>().ok()) {
+        return TYPE_NAMES[t % 3].to_owned();
+    }
+    tok.to_owned()
+}
+
+// ------------------------------------------------------------------ known finding F23
+
+fn replay_known(report: &mut Report) {
+    for finding in known_findings("C02") {
+        let id = finding["id"].as_str().unwrap_or("?").to_owned();
+        let witness = &finding["witness"];
+        let tree = witness["tree"].as_str().unwrap_or("");
+        let kind = witness["generator"].as_str().unwrap_or("dense");
+        let span = witness["column_span"].as_u64().unwrap_or(80) as usize;
+        let blk = match sexp::parse(tree).and_then(|s| sexp::to_blk(&s)) {
+            Some(b) => b,
+            None => {
+                report.notes.push(format!("{}: witness tree unreadable", id));
+                continue;
+            }
+        };
+        let node = to_block(&blk);
+        if let Ok(run) = generate(kind, span, &node) {
+            let still = match darklua_parse(&run.text) {
+                Ok(parsed) => norm_block(&parsed) != norm_block(&blk),
+                Err(_) => true,
+            };
+            if still {
+                report.known_finding(&id, &format!("tree {} is written {:?}, which reads back as a different tree", tree, run.text));
+            }
+        }
+    }
+}
+
+// ------------------------------------------------------------------ driver
+
+fn spans_for(thorough: bool, rng: &mut Rng, full: bool) -> Vec<usize> {
+    if thorough && full {
+        (0..=120).collect()
+    } else if thorough {
+        let mut v = vec![0, 1, 2, 3, 5, 8, 13, 20, 40, 80, 120];
+        for _ in 0..6 {
+            v.push(rng.below(121));
+        }
+        v.sort();
+        v.dedup();
+        v
+    } else {
+        let mut v = vec![0, 1, 2, 80];
+        v.push(3 + rng.below(30));
+        v.push(rng.below(121));
+        v.sort();
+        v.dedup();
+        v
+    }
+}
+
+pub fn run(report: &mut Report, replay: Option<&str>) {
+    report.rule = "trees: enumerated families (all operator pairs in both nestings, operator triples in all 5 shapes, unary chains, negative literals, numbers/dots/long strings adjacency, `;` insertion for every statement-ending x `(`-starting statement, every expression kind in every operand position) then random trees over every node kind; each tree x {dense, readable} x column spans. Non-trivial = the run performed more than 3 primitive writes (distinct trees counted); table cases count distinct decisions (break pairs only where the real answer is `true`).".into();
+    let thorough = report.is_thorough();
+    let mut rng = Rng::new(report.seed);
+
+    if let Some(path) = replay {
+        replay_file(report, path);
+        return;
+    }
+    replay_known(report);
+    corpus(report);
+    let mut model = Model::spawn();
+    table_correspondence(report, &mut model);
+    drop(model);
+
+    // ---- trees
+    let mut work: Vec<(String, Blk, Vec<usize>)> = Vec::new();
+    for (family, blk) in enumerated(thorough, &mut rng) {
+        let spans = spans_for(thorough, &mut rng, false);
+        work.push((family.to_owned(), blk, spans));
+    }
+    let random_count = if thorough { 25_000 } else { 6_000 };
+    let full_span_count = if thorough { 3_000 } else { 0 };
+    let mut g = Gen::new(rng.fork());
+    for i in 0..random_count {
+        let depth = 1 + g.rng.below(3);
+        let blk = if g.rng.chance(1, 3) { ret(vec![g.expr(depth + 1)]) } else { g.block(depth) };
+        let spans = spans_for(thorough, &mut rng, i < full_span_count);
+        work.push(("random".to_owned(), blk, spans));
+    }
+    if thorough {
+        // every span on a slice of the enumerated families as well
+        let mut extra = enumerated(false, &mut rng);
+        rng.shuffle(&mut extra);
+        for (family, blk) in extra.into_iter().take(1_500) {
+            work.push((family.to_owned(), blk, (0..=120).collect()));
+        }
+    }
+    report.count("trees", work.len() as u64);
+
+    let threads = std::thread::available_parallelism().map(|n| n.get()).unwrap_or(4).min(16);
+    let chunks: Vec<Vec<(String, Blk, Vec<usize>)>> = {
+        let mut c: Vec<Vec<_>> = (0..threads).map(|_| Vec::new()).collect();
+        for (i, w) in work.into_iter().enumerate() {
+            c[i % threads].push(w);
+        }
+        c
+    };
+    let locals: Vec<Local> = std::thread::scope(|scope| {
+        let handles: Vec<_> = chunks
+            .into_iter()
+            .map(|chunk| {
+                scope.spawn(move || {
+                    let mut model = Model::spawn();
+                    let mut local = Local::default();
+                    for (family, blk, spans) in &chunk {
+                        check_tree(&mut model, family, blk, spans, &mut local);
+                    }
+                    local
+                })
+            })
+            .collect();
+        handles.into_iter().map(|h| h.join().expect("worker panicked")).collect()
+    });
+    let mut f23_texts: Vec<String> = Vec::new();
+    let mut f26_texts: Vec<String> = Vec::new();
+    for local in locals {
+        f23_texts.extend(local.f23_seen.iter().cloned());
+        f26_texts.extend(local.f26_seen.iter().cloned());
+        local.merge_into(report);
+    }
+    f23_texts.sort();
+    f23_texts.dedup();
+    if !f23_texts.is_empty() {
+        report.notes.push(format!(
+            "trees outside H2 (negative literal as left operand of ^ / under :: / left of .. in dense) were generated and did not read back, as findings F23/F23b say; e.g. {:?}",
+            f23_texts.iter().take(3).collect::<Vec<_>>()
+        ));
+    }
+    f26_texts.sort_by_key(|t| t.len());
+    f26_texts.dedup();
+    if !f26_texts.is_empty() {
+        report.notes.push(format!(
+            "trees outside H3 (statement text ends with a parenthesis the printer adds, next statement starts with `(`, no `;` written) were generated and read back as a call, as finding F26 says; e.g. {:?}",
+            f26_texts.iter().take(2).collect::<Vec<_>>()
+        ));
+    }
+    // a correspondence break next to an oracle failure: the oracle failure is the finding
+    if report.violations.iter().any(|v| v.kind == "oracle") {
+        report.violations.retain(|v| v.kind == "oracle");
+    }
+}
+
+fn corpus(report: &mut Report) {
+    let dir = concat!(env!("CARGO_MANIFEST_DIR"), "/../corpus/C02");
+    let mut entries: Vec<_> = match std::fs::read_dir(dir) {
+        Ok(d) => d.filter_map(|e| e.ok()).map(|e| e.path()).collect(),
+        Err(_) => return,
+    };
+    entries.sort();
+    let mut model = Model::spawn();
+    for path in entries {
+        let text = match std::fs::read_to_string(&path) {
+            Ok(t) => t,
+            Err(_) => continue,
+        };
+        let value: Value = match serde_json::from_str(&text) {
+            Ok(v) => v,
+            Err(_) => continue,
+        };
+        if value["known_finding"].is_string() {
+            continue;
+        }
+        if let Some(blk) = value["tree"].as_str().and_then(sexp::parse).and_then(|s| sexp::to_blk(&s)) {
+            let mut local = Local::default();
+            let spans: Vec<usize> = match value["column_span"].as_u64() {
+                Some(s) => vec![s as usize, 0, 1, 80],
+                None => vec![0, 1, 2, 80],
+            };
+            check_tree(&mut model, "corpus", &blk, &spans, &mut local);
+            local.merge_into(report);
+            report.count("corpus_replayed", 1);
+        }
+    }
+}
+
+fn replay_file(report: &mut Report, path: &str) {
+    let text = std::fs::read_to_string(path).expect("replay file");
+    let value: Value = serde_json::from_str(&text).expect("replay json");
+    let input = &value["input"];
+    let mut model = Model::spawn();
+    if let Some(blk) = input["tree"].as_str().and_then(sexp::parse).and_then(|s| sexp::to_blk(&s)) {
+        let span = input["column_span"].as_u64().unwrap_or(80) as usize;
+        let mut local = Local::default();
+        check_tree(&mut model, "replay", &blk, &[span], &mut local);
+        local.merge_into(report);
+    } else {
+        // table inputs: re-run the whole (cheap, exhaustive) table correspondence
+        table_correspondence(report, &mut model);
+    }
 }
